@@ -169,7 +169,7 @@ Definition ex_cfg : cfg :=
   mkCfg [mkACfg [[([OWrite (NOut 0) [] (EConst 7)], false)]] [];
          mkACfg [[([OWrite (NShr 0) [] (EConst 5); ORead (NIn 0) []; OWrite (NLoc 0) [] (ELast 1)], false)]] [VInt 3];
          mkACfg [[([ORead (NShr 0) []], true); ([ORead (NShr 0) []], false)]] []]
-        [0%Z] [].
+        [VInt 0] [].
 Definition ex_sched : list (nat * bool) :=
   map (fun a => (a, false)) [0; 0; 1; 1; 1; 1; 2; 2; 2; 2].
 
